@@ -2810,6 +2810,12 @@ class LinearOperator(object):
         # Pad the index with empty indices
         index = index + tuple(_noop_index for _ in range(ndimension - len(index)))
 
+        # Negative entries of tensor indices count from the end (as they do for torch.Tensor)
+        index = tuple(
+            torch.where(idx < 0, idx + size, idx) if torch.is_tensor(idx) and idx.dtype != torch.bool else idx
+            for idx, size in zip(index, self.shape)
+        )
+
         # Make the index a tuple again
         *batch_indices, row_index, col_index = index
 
